@@ -5,6 +5,7 @@ import (
 	"go/constant"
 	"go/token"
 	"go/types"
+	"regexp"
 	"sort"
 	"strings"
 
@@ -592,4 +593,91 @@ func fromNativeEndian(v ssa.Value) bool {
 		}
 	}
 	return false
+}
+
+// collection expressions (as rendered inside len(...)) of the walks checked by
+// ruleCollectionExhausted
+const (
+	collDBINames   = `lmdbenv\.ReadDBINames@\w+#0`
+	collSnapDBIs   = `[^()]*\.Databases`
+	collLocalNames = `local:\w+|\*?alloc:[\w.]+|lmdbenv\.ReadDBINames@\w+#0`
+)
+
+// COLLECTION-EXHAUSTED: the listed functions walk a collection (the DBIs of a
+// snapshot, the DBI names of the environment) and must handle every element: a
+// successful return is reached only after the loop over that collection ran to
+// its end. A path that is inside an iteration of that loop (or left it with a
+// break) and then returns a nil error cuts the walk short "successfully": the
+// remaining DBIs are not merged / dumped / mirrored / swept and the
+// transaction still commits. allowed lists, per function, the conditions under
+// which an early successful end is intended.
+func ruleCollectionExhausted(c *Check, rule, name, coll string, allowed func(p *Path) bool) {
+	collRe := regexp.MustCompile(`len\((` + coll + `)\)`)
+	fn, paths := c.walkFn(rule, name, WalkConfig{Memo: true, MaxPaths: 120000,
+		KeepAtom: func(a Atom) bool {
+			s := a.String()
+			return collRe.MatchString(s) || strings.HasPrefix(s, "isnil(") || strings.HasPrefix(s, "!isnil(")
+		},
+		KeepEvent: func(e *Event) bool { return e.Kind == "ret" }})
+	if paths == nil {
+		return
+	}
+	wk := &Walker{loops: map[*ssa.Function]*loopInfo{}}
+	nLoop, nEnd, bad := 0, 0, 0
+	for i := range paths {
+		p := &paths[i]
+		inside := map[*ssa.BasicBlock]bool{}
+		seen := false
+		for j := range p.Events {
+			e := &p.Events[j]
+			if e.Kind != "cond" || e.Cond == nil || !collRe.MatchString(e.Cond.Atom.String()) {
+				continue
+			}
+			iff, ok := e.Instr.(*ssa.If)
+			if !ok {
+				continue
+			}
+			body, isHdr := wk.loopsOf(iff.Block().Parent()).headers[iff.Block()]
+			if !isHdr {
+				continue
+			}
+			seen = true
+			inside[iff.Block()] = body[iff.Block().Succs[e.Edge]]
+		}
+		if !seen {
+			continue
+		}
+		nLoop++
+		if p.End != "return" || len(p.Rets) == 0 {
+			continue
+		}
+		r := p.Rets[len(p.Rets)-1]
+		isNil := r == "nil"
+		if !isNil {
+			if v, ok := p.State.BoolOf("isnil(" + r + ")"); ok && v {
+				isNil = true
+			}
+		}
+		if !isNil {
+			continue
+		}
+		in := false
+		for _, v := range inside {
+			in = in || v
+		}
+		if !in {
+			nEnd++
+			continue
+		}
+		if allowed != nil && allowed(p) {
+			continue
+		}
+		bad++
+		c.Bad(rule, name+"/early-success", "the function returns successfully from inside the walk over "+coll+" (before the last element was handled): the remaining elements are skipped and the enclosing transaction still commits", c.pathPos(p), describe(c, p))
+	}
+	if bad == 0 {
+		c.Ok(rule, name+"/collection-exhausted", fmt.Sprintf("%d path classes through the walk over %s: every successful return (%d) lies behind the end of that loop", nLoop, coll, nEnd), c.P.Pos(fn.Pos()))
+	}
+	c.Floor(rule, nLoop, 2, "paths through the collection loop of "+name)
+	c.Floor(rule, nEnd, 1, "successful ends behind the collection loop of "+name)
 }
